@@ -19,7 +19,9 @@ Nil        == [t |-> "nil"]
 MatchersG == {Hosts(<<"a.com">>), Hosts(<<"{sub}.b.com">>), PV(<<"v1">>), PV(<<"v1", "v11">>), HV(<<"v2">>), Nil,
               And(<<PV(<<"v1">>), Hosts(<<"a.com">>)>>), And(<<Hosts(<<"a.com">>), PV(<<"v1">>)>>),
               Or(<<And(<<PV(<<"v1">>), Hosts(<<"a.com">>)>>), PV(<<"v1">>)>>), Or(<<Hosts(<<"a.com">>), Hosts(<<"{sub}.b.com">>)>>),
-              And(<<PV(<<"v1">>), HV(<<"v2">>)>>)}
+              And(<<PV(<<"v1">>), HV(<<"v2">>)>>),
+              Or(<<And(<<HV(<<"v2">>), Hosts(<<"a.com">>)>>), Hosts(<<"{sub}.b.com">>)>>),
+              Or(<<And(<<Hosts(<<"{sub}.b.com">>), PV(<<"v9">>)>>), Nil>>)}
 Names == {"r1", "r2", "r3"}
 Hd(n, p, ms, mw) == [op |-> "handle", inst |-> n, pat |-> p, methods |-> ms, mws |-> mw, chain |-> <<>>, res |-> FALSE]
 Table(n) == <<Hd(n, "/x", <<"GET">>, <<"m">>), Hd(n, "/{rest}", <<"GET">>, <<>>)>>
@@ -38,14 +40,22 @@ ApplyAll(g, ops, i) == IF i > Len(ops) THEN g ELSE ApplyAll(ApplyGOp(g, ops[i]).
 DeepBase == BaseOps \o <<[op |-> "guse", mws |-> <<"g">>], [op |-> "gadd", inst |-> "r1", m |-> Hosts(<<"a.com">>)], [op |-> "gadd", inst |-> "r2", m |-> PV(<<"v1">>)]>>
 DeepOps == {[op |-> "use", inst |-> "r1", mws |-> <<"a">>], [op |-> "use", inst |-> "r2", mws |-> <<"b">>], [op |-> "guse", mws |-> <<"h">>],
             Hd("r1", "/y", <<"GET">>, <<>>), Hd("r2", "/y", <<"GET">>, <<"m">>), [op |-> "gremove", inst |-> "r1"]}
+\* three routers in the group: removing one must keep the order of the others
+Deep3Base == BaseOps \o <<[op |-> "gadd", inst |-> "r1", m |-> Hosts(<<"a.com">>)], [op |-> "gadd", inst |-> "r2", m |-> PV(<<"v1">>)]>>
+             \o <<[op |-> "gnew", inst |-> "r3", m |-> Nil, cfg |-> RC("r3", FALSE)]>> \o Table("r3")
+             \o <<[op |-> "gnew", inst |-> "r4", m |-> PV(<<"v1", "v11">>), cfg |-> RC("r4", FALSE)]>> \o Table("r4")
+Deep3Ops == {[op |-> "gremove", inst |-> n] : n \in {"r1", "r2", "r3", "r4"}} \cup {[op |-> "gadd", inst |-> "r1", m |-> Nil], [op |-> "guse", mws |-> <<"h">>]}
 Init == \E rec \in Recs : \/ ("full" \in Alphas /\ G = ApplyAll(NewGroup(rec), BaseOps, 1) /\ hist = BaseOps /\ nbase = Len(BaseOps) /\ alpha = "full")
                            \/ ("deep" \in Alphas /\ G = ApplyAll(NewGroup(rec), DeepBase, 1) /\ hist = DeepBase /\ nbase = Len(DeepBase) /\ alpha = "deep")
+                           \/ ("deep" \in Alphas /\ G = ApplyAll(NewGroup(rec), Deep3Base, 1) /\ hist = Deep3Base /\ nbase = Len(Deep3Base) /\ alpha = "deep3")
 Next == /\ UNCHANGED <<nbase, alpha>>
         /\ \/ /\ alpha = "full" /\ Len(hist) - nbase < Depth
               /\ \/ \E o \in GOps : G' = ApplyGOp(G, o).g /\ hist' = Append(hist, o)
                  \/ \E o \in GNewOps : GNewOK(G, o.inst) /\ G' = ApplyAll(ApplyGOp(G, o).g, Table(o.inst), 1) /\ hist' = Append(hist, o) \o Table(o.inst)
-           \/ /\ alpha = "deep" /\ Len(hist) - nbase < 3
+           \/ /\ alpha = "deep" /\ Depth > 0 /\ Len(hist) - nbase < 3
               /\ \E o \in DeepOps : G' = ApplyGOp(G, o).g /\ hist' = Append(hist, o)
+           \/ /\ alpha = "deep3" /\ Depth > 0 /\ Len(hist) - nbase < 2
+              /\ \E o \in Deep3Ops : G' = ApplyGOp(G, o).g /\ hist' = Append(hist, o)
 Spec == Init /\ [][Next]_vars
 
 \* requests: host x path x Accept (x method); fault plans for C16
@@ -55,7 +65,7 @@ HostsQ == {"a.com", "s.b.com", "A.COM:80", "c.com"}
 PathsQ == {"/v1/x", "/v11/x", "/x", "/v1", "/v1/7q", "/nope/y", "/y", "/v1/y"}
 AcceptQ == {"", "application/json; version=v2", "text/html; version=v3"}
 ReqsC13 == {Rq("gserve", "", m, p, h, a, <<>>) : m \in {"GET", "POST"}, p \in PathsQ, h \in HostsQ, a \in AcceptQ}
-FaultVals == {"error", "string", "runtime"}
+FaultVals == {"error", "string", "runtime", "abort"}
 FaultSites == {"h:route", "h:opt", "h:405", "h:404", "h:trace", "h:gnf", "mw:m", "mw:g", "mw:h", "mw:i"}
 ReqsC16 == {Rq(k, n, m, p, "a.com", "", (s :> v)) : k \in {"gserve", "rserve"}, n \in {"r1", "r2"}, m \in {"GET", "POST", "OPTIONS", "TRACE"},
                                                     p \in {"/x", "/v1/x", "/nope/y/z"}, s \in FaultSites, v \in FaultVals}
